@@ -174,6 +174,8 @@ impl<K: KeyT> World<K> {
         let _ = self.slot(a.max(b));
         if op == "clone" || op == "tryClone" {
             let src_unlimited = self.slots[a].obj.max_mem() == Some(usize::MAX);
+            // the limit in force on the source (the harness's own record first)
+            let src_limit = self.slots[a].shadow.limit.or(self.slots[a].obj.max_mem());
             let res = match &self.slots[a].obj {
                 Obj::Rodeo(r) => guarded(|| if op == "clone" { Ok(r.clone()) } else { r.try_clone() }),
                 _ => return "bad-op".into(),
@@ -181,7 +183,10 @@ impl<K: KeyT> World<K> {
             match res {
                 Caught::Ok(Ok(c)) => {
                     self.slots[b] = Slot { obj: Obj::Rodeo(c), shadow: self.slots[a].shadow.clone(), born: "C12" };
-                    self.slots[b].shadow.limit = None;
+                    // the source's limit stays in force on the copy (C08: "including after clone"), unless the
+                    // content copied already takes more than that
+                    let used = self.slots[b].obj.mem().unwrap_or(0);
+                    self.slots[b].shadow.limit = src_limit.map(|l| l.max(used));
                     // the copy holds no static references: everything was copied into its arena
                     for s in self.slots[b].shadow.stat.iter_mut() {
                         *s = None;
